@@ -1,5 +1,6 @@
 pub mod c02;
+pub mod c03;
 use crate::engine::Prop;
 pub fn all() -> Vec<Box<dyn Prop>> {
-    vec![Box::new(c02::C02)]
+    vec![Box::new(c02::C02), Box::new(c03::C03)]
 }
